@@ -65,7 +65,7 @@ func init() {
 		Level: "model_checking",
 		Rule: "graph part: 15 object-rich sources (recursion, mutual recursion, forward references, labels, type-switch/range/select variables, iota groups, type parameters, receivers, closures, shadowing, unresolved names) plus every corpus template, parsed with object resolution: " +
 			"the decorator's Objects/Scopes/Nodes maps must be a graph isomorphism (shared objects, kind, name, data, declaration link, scope nesting and membership), and restoring with Extras must rebuild an isomorphic graph; " +
-			"package part: every non-empty subset of <=3 files of a 10-file pool (cross-file references, redeclarations, undeclared names, dot/renamed/failing imports, a mismatching package clause, a shadowed universe name) x importer {nil, map} x universe {nil, small scope}: " +
+			"package part: every non-empty subset of <=4 files of a 10-file pool (cross-file references, redeclarations, undeclared names, dot/renamed/failing imports, a mismatching package clause, a shadowed universe name) x importer {nil, map} x universe {nil, small scope}: " +
 			"dst.NewPackage on the decorated files (Unresolved filled from the images) vs go/ast.NewPackage on the originals: same package scope, same error multiset (positions aside), same remaining unresolved names and same resolutions; state = source / (file set, importer, universe)",
 		Assumptions:      []string{"go/ast.NewPackage and go/parser's object resolution of this toolchain are the reference"},
 		CrashIsViolation: true,
@@ -114,6 +114,15 @@ func init() {
 				sets = append(sets, []string{c18Pool[first].Name, c18Pool[j].Name})
 				for k := j + 1; k < len(c18Pool); k++ {
 					sets = append(sets, []string{c18Pool[first].Name, c18Pool[j].Name, c18Pool[k].Name})
+				}
+			}
+			{
+				for j := first + 1; j < len(c18Pool); j++ {
+					for k := j + 1; k < len(c18Pool); k++ {
+						for l := k + 1; l < len(c18Pool); l++ {
+							sets = append(sets, []string{c18Pool[first].Name, c18Pool[j].Name, c18Pool[k].Name, c18Pool[l].Name})
+						}
+					}
 				}
 			}
 			for _, fs := range sets {
